@@ -1252,7 +1252,7 @@ func (es *ES) execAssign(x *ast.AssignStmt, st *esState) []*esState {
 					} else {
 						es.problem(l.Pos(), "instructions assigned from an unmodelled expression", exprShort(rhs))
 					}
-				case "funcname", "knownFunctions", "env":
+				case "funcname", "knownFunctions", "env", "self":
 				default:
 					es.problem(l.Pos(), "generator field assignment not modelled", l.Sel.Name)
 				}
